@@ -181,7 +181,9 @@ fn main() {
                 match std::fs::read_to_string(&path).ok().and_then(|s| serde_json::from_str::<Value>(&s).ok()) {
                     Some(v) => {
                         let mut o = shardout_from_json(&v);
-                        extra.insert("seq_build".into(), json!({"evaluations": o.evaluations, "distinct": o.digests.len(), "counters": o.counters}));
+                        // (the per-file digests the two builds are compared on are not repeated in the evidence)
+                        let counters: std::collections::BTreeMap<&String, &u64> = o.counters.iter().filter(|(k, _)| !k.starts_with("digest:")).collect();
+                        extra.insert("seq_build".into(), json!({"evaluations": o.evaluations, "distinct": o.digests.len(), "files_digested": o.counters.keys().filter(|k| k.starts_with("digest:")).count(), "counters": counters}));
                         o.counters.clear();
                         o.samples.clear();
                         out.merge(o);
